@@ -55,6 +55,12 @@ def concretize(prop, ob):
         out.append(("metadata_exclusion", {}))
     if fn == "FileHashStore.__init__" and "frame-self" in name:
         out.append(("mp_mode", {}))
+    if "W-Obj-written-under-its-cid-lock" in name or name.endswith("one-guard/Obj"):
+        out.append(("race_store_delete", {}))
+    if "W-PidRef" in name or name.endswith("one-guard/PidRef"):
+        out.append(("race_tag_delete", {}))
+    if "C-check-then-act/entry-existence" in name:
+        out.append(("race_delete_all_metadata", {}))
     if name.startswith("fault["):
         # fault[<mode>]/<scenario>/<clause>; detail: "... after <prim>@mkloc(<kind>, ...)"
         import re as _re
